@@ -26,6 +26,7 @@ PARTS += ["chordcmp"]     # mir_eval/chord.py comparison functions -> MirGen/Cho
 PARTS += ["hierarchy"]    # mir_eval/hierarchy.py T-/L-measure kernels -> MirGen/Hierarchy.lean (C17)
 PARTS += ["trmatch"]      # transcription.match_note_onsets / _offsets / match_notes + the three P/R/F functions -> MirGen/TrMatch.lean (C05, C04)
 PARTS += ["melody"]       # mir_eval/melody.py frame metrics, validation, freq_to_voicing, time base -> MirGen/Melody.lean (C04)
+PARTS += ["trvel"]        # transcription.average_overlap_ratio + transcription_velocity.match_notes / precision_recall_f1_overlap -> MirGen/TrVel.lean (C04, C05, C02)
 PARTS += ["validators"]   # mir_eval input validators -> MirGen/Validators.lean (C14)
 PARTS += ["sepcrit"]      # mir_eval/separation.py criteria, decomposition arithmetic -> MirGen/SepCrit.lean (C19)
 PARTS += ["pattern"]      # mir_eval/pattern.py metrics -> MirGen/Pattern.lean (C04, C01; after validators: binds to Mir.GenV.pattern.*)
